@@ -47,7 +47,12 @@ def _leaves(x):
 
 def symbolic_trace(rng, ncalls=10):
     plan = gen_program(rng, rng.randint(1, 3))
-    run = ProgramRun(plan)
+    unodes = {}
+    if rng.random() < 0.2:     # a user-supplied node replaces one of the model's totals
+        cand = [i + 1 for i, p in enumerate(plan) if p["kind"] in ("c", "t") and not p.get("wrapped")]
+        if cand:
+            unodes[rng.choice(["lp", "lp", "ll", "lpr"])] = rng.choice(cand)
+    run = ProgramRun(plan, unodes)
     user = run.model
     hdr = run.header()
     # the user may have switched auto-update off (after a full update) before creating the interface
